@@ -115,8 +115,9 @@ def judge(ctx, text, case, enumerated=False, klass=None):
     # accepted
     got = [adapt.norm_gemato(e) for e in m.entries]
     if verdict == classify.REJECT:
-        ctx.violation('accepts-malformed:' + reasons[0].replace(' ', '-'),
-                      'malformed text accepted (%s)' % reasons[0], case,
+        why = [r for r in reasons if not r.startswith('~')][0]
+        ctx.violation('accepts-malformed:' + why.replace(' ', '-'),
+                      'malformed text accepted (%s)' % why, case,
                       {'entries': got, 'reasons': reasons})
         return
     nlines = sum(1 for ln in text.split('\n') if ln.split())
